@@ -97,6 +97,59 @@ def pool_files(r, tier):
     return files
 
 
+def _toy_part(rep, wd, r, tier):
+    """Lossy MAC comparisons.  With a real MAC a comparison that looks at less than the whole MAC (truncation, an XOR-fold or a
+    sum of its words) lets damage through only with negligible probability - invisible to any input-based check.  The same
+    sweep is therefore run once more with a TOY back end registered through the public plug-in interface whose MAC has 8 bits of
+    entropy (sixteen equal bytes); the specification is instantiated on the same toy cipher (spec/Trace_Bf3Toy.tla), so a
+    complete comparison agrees with it event by event (toy collisions included) and any lossy comparison shows as excess
+    acceptance."""
+    from .. import toycipher
+    rec = L.Rec()
+    with toycipher.registered() as T:
+        for _ in range(40):
+            key, ix, data = L.gen_key(r), r.choice([0, 1, 2, 255, 256, 70000]), bytes(r.randrange(256) for _ in range(r.choice([1, 15, 16, 17, 40])))
+            rec.add({"op": "toy.mac", "key": B(key), "ix": ix, "data": B(data), "out": B(T(key, ix.to_bytes(16, "big") if ix else None).mac(data))})
+            rec.add({"op": "toy.enc", "key": B(key), "data": B(data), "out": B(T(key).encrypt(data))})
+        shapes = [L.Bf3File({"k": "v"}, [L.mk_comp({0x10: b"ab"}, bytes(range(1, 24)), 23), L.mk_comp({}, bytes(16))]),
+                  L.Bf3File({}, [L.mk_comp({0xC3: b"\x03", 0xC2: b"\x02"}, bytes(range(9, 30)), 21, True), L.mk_comp({7: b"x"}, b"\x05\x04\x03")])]
+        ndam = nacc = 0
+        for f in shapes:
+            key = L.gen_key(r)
+            text = L.rec_write(rec, f, key, False, wd)
+            auth = rec.last_written
+            L.rec_read(rec, text, key, True, False, wd, auth=auth, label="authentic")
+            binary = L.BF3_FILE_SIG + f.to_binary(5, key)
+            for p in range(5, len(binary)):
+                vals = {binary[p] ^ (1 << k) for k in range(8)} | {0, 0xFF, (binary[p] + 1) & 0xFF}
+                vals.discard(binary[p])
+                for v in (sorted(vals) if tier == "thorough" else r.sample(sorted(vals), 3)):
+                    b = bytearray(binary)
+                    b[p] = v
+                    s = io.StringIO()
+                    L.Bf3File.write_bf3_format(s, {}, bytes(b))
+                    ev = L.rec_read(rec, s.getvalue(), key, True, False, wd, label="byte%d=%02x" % (p, v))
+                    ndam += 1
+                    nacc += 1 if ev["kind"] == "ok" else 0
+    dmg = [e for e in rec.events if e["op"] == "bf3.read" and e["kind"] == "raise"]
+    can = dict(dmg[0] if dmg else rec.events[-1], kind="ok")
+    rec.add(can)
+    rej, st = tlc.validate_trace(os.path.join(SPEC, "Trace_Bf3Toy.tla"), "INIT Init\nNEXT Next\n", rec.events, os.path.join(wd, "toy"), shards=16)
+    ids = {x[1]: x for x in rej}
+    byid = {e["tid"]: e for e in rec.events}
+    for tid, x in ids.items():
+        if tid == can["tid"]:
+            continue
+        e = byid[tid]
+        slim = {k: (v if not isinstance(v, list) or len(v) < 600 else v[:600]) for k, v in e.items()}
+        rep.violation("C04:toy-cipher:%s:%s" % (e["op"], x[2]), "with the 8-bit toy MAC registered: %s event rejected by the specification instantiated "
+                      "on the same toy cipher: %s (%s)" % (e["op"], x[2], e.get("label", "")), slim)
+    if can["tid"] not in ids and not rep.violations:
+        raise MachineryError("binding self-test: an accepted damaged file was not flagged by Trace_Bf3Toy")
+    rep.add_trace("Trace_Bf3Toy: the damage sweep with an 8-bit toy MAC registered through the plug-in interface (lossy MAC comparisons become visible)",
+                  st, len(rec.events) - 1, extra={"damaged_files": ndam, "accepted_by_code_and_specification_alike (toy collisions)": nacc})
+
+
 def run(tier):
     rep = Report("C04", tier)
     r = rng("c04")
@@ -185,6 +238,7 @@ def run(tier):
                 rep.violation("C04:%s" % x[2].split(":")[0], "event rejected by the specification: %s (%s)" % (x[2], e.get("label")), slim)
         if not canary_ok and not rep.violations:
             raise MachineryError("binding self-test: silently accepted different content not flagged")
+        _toy_part(rep, wd, r, tier)
         n_acc = sum(1 for e in rec.events if e["op"] in ("bf3.read", "bec2.read") and e["kind"] == "ok")
         rep.add_trace("Trace_Bec2: real reader on every single-byte replacement class, every binary/text prefix, suffixes, key-bit flips", st,
                       len(rec.events) - 1, extra={"authentic_files": len(files) + len(kindsets), "accepted_variants": n_acc,
